@@ -2,12 +2,14 @@ import JPV.Tables.Common
 namespace JPV.Tables
 open JPV JPV.Impl
 
-/-- the regex engine is called with the pattern and the subject only (no flags), and the
-only exceptions swallowed are `TypeError` and `re.error` -/
+/-- the regex engine is entered once per call — `fullmatch` for `match()`, `search` for `search()` — with the pattern
+and the subject only (no flags), and of the exceptions the engine may raise exactly `TypeError` and `re.error` are
+swallowed (the function returns false); obtained by EXECUTING the two functions with the engine's entry points
+replaced by recorders (`gen_tables.extract_regex_behaviour`), so it survives any rewrite that keeps the behaviour -/
 theorem re_calls_model : Generated.reCalls =
-    [("function_extensions/match.py", "re.fullmatch", 2, []),
-     ("function_extensions/match.py", "except", 1, ["(TypeError,re.error)"]),
-     ("function_extensions/search.py", "re.search", 2, []),
-     ("function_extensions/search.py", "except", 1, ["(TypeError,re.error)"])] := by decide +kernel
+    [("match", "calls fullmatch", 2, []),
+     ("match", "swallows", 2, ["TypeError", "error"]),
+     ("search", "calls search", 2, []),
+     ("search", "swallows", 2, ["TypeError", "error"])] := by decide +kernel
 
 end JPV.Tables
